@@ -60,6 +60,9 @@ def interp_cases(tier, seed):
     for fam in ("NP1", "NP2", "NP2.4", "NPultra", "NP1-shuffled"):
         for width in (1, 4, 12, 24):
             out.append((fam, "clusters", [width]))
+    # more bad channels in one call than any block size found in the source (pairs of adjacent dead / noisy channels all along the probe)
+    for fam in ("NP1", "NP2.4"):
+        out.append((fam, "many-bad", [0]))
     return out
 
 
@@ -165,6 +168,21 @@ def interp_check(case):
             labels = np.zeros(nc)
             labels[start:start + w] = 1
             ntr += _interp_one(h, labels, data[:2], seen, "%s cluster of %d bad channels from channel %d" % (fam, w, start))
+    elif mode == "many-bad":
+        from mc import thresholds
+        counts = thresholds.beyond(thresholds.mine([voltage], 8, 300), extra=(33, 41, 65, 130), cap=190)
+        for nbad in sorted(set(counts)):
+            labels = np.zeros(nc)
+            pos = 2
+            k = 0
+            while k < nbad and pos < nc - 2:
+                labels[pos] = 1 + (k % 2)
+                k += 1
+                if k % 2 == 0:
+                    pos += 4          # next pair after three good channels
+                else:
+                    pos += 1          # its adjacent partner
+            ntr += _interp_one(h, labels, data, seen, "%s %d bad channels in adjacent dead/noisy pairs" % (fam, int((labels > 0).sum())))
     elif mode == "in-outside-block":
         # dead / noisy channels whose only neighbours within reach are labelled outside the brain: they must be rebuilt from them
         for pos in range(nc - 14, nc - 5):
@@ -320,12 +338,19 @@ def file_check(case):
         raw[100, sl] = 0                       # silent in 4 of the 7 recorded batches ...
         raw[:, starts[7]:] = 0                 # ... and the last three batches of the file are blank
     # non overlapping batches are needed for the plan to be exact: check
-    s2v = 2.34375e-06
-    ints = np.clip(np.round(raw / s2v), -32768, 32767).astype(np.int16)
+    # per-channel gains as the IMRO table carries them (mixed on odd variants: a few channels recorded at another gain hold the same voltages)
+    gains = [(500, 250)] * nc
+    if variant % 2:
+        for ch in (120, 121, 122):
+            gains[ch] = (125, 250)
+        for ch in (220, 221):
+            gains[ch] = (2000, 250)
+    s2v = np.array([0.6 / 512 / g[0] for g in gains])
+    ints = np.clip(np.round(raw / s2v[:, None]), -32768, 32767).astype(np.int16)
     data = np.concatenate([ints.T, np.zeros((ns, 1), dtype=np.int16)], axis=1)
     sites = list(zip(neuropixel.trace_header(1)["shank"].astype(int).tolist(), neuropixel.trace_header(1)["row"].astype(int).tolist(),
                      neuropixel.trace_header(1)["col"].astype(int).tolist()))
-    fbin = synth.write_recording(d, "det_g0_t0.imec0.ap", data, synth.meta_items("3B2", sites, ns))
+    fbin = synth.write_recording(d, "det_g0_t0.imec0.ap", data, synth.meta_items("3B2", sites, ns, gains=gains, encoding="geom" if variant % 2 else "shank"))
     if suffix == "cbin":
         sr0 = spikeglx.Reader(fbin)
         sr0.compress_file(keep_original=False, n_threads=1, quiet=True, check_after_compress=False)
@@ -350,6 +375,13 @@ def file_check(case):
         # and the plan: majority faults are reported, minority ones are not
         if got.shape == (nc,) and clear[250] and got[250] != 0 and variant != 4:
             v.append(("detect-file:plan", "channel 250 clean in 3, dead in 2 and noisy in 2 of 7 batches is labelled %r (mode is 0)" % got[250]))
+        # ... and the channels nothing was done to stay clear (away from the probe ends, see the known finding for channel 0)
+        touched = set(plan) | set(plan_end) | set(mixed)
+        quiet = np.array([c for c in range(5, nc - 5) if c not in touched and (variant != 3 or c != 100)])
+        if got.shape == (nc,) and np.any(got[quiet] != 0):
+            w = quiet[np.flatnonzero(got[quiet] != 0)]
+            v.append(("detect-file:clean-channel-flagged", "channels %r carry the same coherent background as their neighbours (nothing injected) but are labelled %r"
+                      % (w[:6].tolist(), got[w[:6]].tolist())))
         for ch, (lab, nbat) in list(plan.items()) + list(plan_end.items()):
             want = lab if nbat > nb / 2 else 0
             if got.shape == (nc,) and got[ch] != want and clear[ch]:
